@@ -7,4 +7,6 @@ Extraction "c09_model.ml" run_flat run_src chunks_of uniform
   write_to image sink_of w_ok fld_calls varint_calls varlong_calls raw_calls pack_calls rcon_calls bs_calls
   nbt_doc_calls sloppy_calls readByte_orig readByte_now
   n_byte n_short n_int n_long n_float n_double n_bytes n_string n_list n_comp n_ints n_longs n_file n_net
+  run_flat_t d_nbt_st st_zero st_depth d_nbtfield_any nbtfield_errn_any plugin_read errn errn_varint errn_varlong
+  errn_fixedbitset errn_bits wt_doc_calls dyn_w
   Z.of_N N.of_nat.
